@@ -400,6 +400,7 @@ func extractC07() *lean {
 	c07Iblt(l)
 	c07Disp(l)
 	c07Addr(l)
+	c07Conv(l)
 	return l
 }
 
